@@ -71,7 +71,7 @@ package chain
 //@   ensures tstate.wf(mu) && tstate.RI(mu)
 
 // Transactions are atomic and always pay their fee (C03)
-//@ func (*Transaction).Execute props C03
+//@ func (*Transaction).Execute props C03 C07
 //@   noframe
 //@   requires tstate.wf(ts) && tstate.RI(ts) && internalfees.wellFormed(feeManager)
 //@   modifies ts.pendingChangedKeys[], ts.writes[], ts.allocates[], ts.ops
@@ -93,6 +93,8 @@ package chain
 //@   ensures err == nil && !result0.Success ==> len(ts.ops) == at(charged, len(ts.ops)) && tstate.RI(ts) && (forall j int :: 0 <= j && j < len(ts.ops) ==> ts.ops[j] == at(charged, ts.ops[j]))
 // an error is returned only before any action ran (units/fee computation or the deduction failed)
 //@   ensures err != nil ==> isnil(result0)
+// C07: a transaction that is executed (included) is charged at most the maximum fee it signed
+//@   ensures @C07 err == nil ==> result0.Fee <= t.Base.MaxFee
 
 // pure getters of a parsed transaction (used by internal/chain and x/fdsmr contracts)
 //@ func (*Transaction).GetSponsor
